@@ -104,7 +104,11 @@ func zzRunCommitConc(mode int, faults int, keys []string, concurrency int) *zzSc
 	// another transaction obtains a timestamp before Commit is called
 	sc.s.orc.GetTimestamp(context.Background(), nil)
 	sc.issuedBefore = append([]uint64(nil), sc.s.orc.issued...)
-	sc.err = txn.Commit(context.Background())
+	// the caller's context may end while a request is in flight (script event)
+	cctx, cancel := context.WithCancel(context.Background())
+	defer cancel()
+	sc.cl.cancelCaller = cancel
+	sc.err = txn.Commit(cctx)
 	sc.s.wg.Wait() // background secondaries commit / cleanup
 	return sc
 }
